@@ -44,7 +44,7 @@ def plan(tier, seed):
 
 def required(tier):
     from vlib.gridwork import KINDS
-    cl = [f'geom:{k}' for k in KINDS] + ['gridder:object-switched-to-another-grid', 'trajectory:more-than-65536-points', 'axes:alt+time', 'axes:', 'segment:antimeridian',
+    cl = [f'geom:{k}' for k in KINDS] + ['gridder:object-switched-to-another-grid', 'state-values:float-with-nan', 'state-values:int64-beyond-2**53', 'trajectory:more-than-65536-points', 'axes:alt+time', 'axes:', 'segment:antimeridian',
                                          'segment:multi-cell', 'alt-cell', 'time-cell',
                                          'state-values']
     return {'classes': cl, 'counters': {'cell_share_comparisons': 2000}, 'evaluations': 800}
@@ -98,10 +98,17 @@ def judge(c, rec, Mismatch, case):
                                     'start_time': float(c.times[s]), **det})
                 rec.cls('time-cell')
             for q in range(c.n_state):
-                if p['state'][q] != float(c.state[q][s]):
+                want_sv, got_sv = c.state[q][s], p['state'][q]
+                if c.state[q].dtype.kind in 'iu':
+                    same = int(got_sv) == int(want_sv) and float(got_sv) == float(int(got_sv))
+                else:
+                    same = (float(got_sv) == float(want_sv)) or (
+                        math.isnan(float(got_sv)) and math.isnan(float(want_sv)))
+                if not same:
                     raise Mismatch('state value is not that of the segment\'s start point',
-                                   {'variable': q, 'got': p['state'][q],
-                                    'expected': float(c.state[q][s]), **det})
+                                   {'variable': q, 'got': repr(got_sv), 'expected': repr(want_sv),
+                                    'state_kind': c.state_kinds[q], **det})
+                rec.cls(f'state-values:{c.state_kinds[q]}')
             if c.n_state:
                 rec.cls('state-values')
         # ---- shares ------------------------------------------------------------------------------
